@@ -65,7 +65,15 @@ static void prep_file(int id, const char *kind, const char *be)
     if (cgio_open_file(p, 'w', ft, &c)) _exit(3);
     cgio_get_root_id(c, &root);
     if (!strcmp(kind, "badver")) cgio_new_node(c, root, "CGNSLibraryVersion", "CGNSLibraryVersion_t", "R4", 1, &dim, &v, &id1);
-    else {
+    else if (!strcmp(kind, "twovers")) {      /* two version nodes: refused by cg_version */
+        v = 3.2f; cgio_new_node(c, root, "CGNSLibraryVersion", "CGNSLibraryVersion_t", "R4", 1, &dim, &v, &id1);
+        cgio_new_node(c, root, "CGNSLibraryVersion2", "CGNSLibraryVersion_t", "R4", 1, &dim, &v, &id2);
+    } else if (!strcmp(kind, "badzone")) {    /* a good base with a zone whose dimensions are wrong: refused deep inside cgi_read */
+        double bid; cgsize_t d2 = 2;
+        v = 3.2f; cgio_new_node(c, root, "CGNSLibraryVersion", "CGNSLibraryVersion_t", "R4", 1, &dim, &v, &id1);
+        cgio_new_node(c, root, "Base", "CGNSBase_t", "I4", 1, &d2, iv, &bid);
+        dim = 7; cgio_new_node(c, bid, "Zone", "Zone_t", "I4", 1, &dim, iv, &id2);
+    } else {
         v = 3.2f; cgio_new_node(c, root, "CGNSLibraryVersion", "CGNSLibraryVersion_t", "R4", 1, &dim, &v, &id1);
         dim = 5; cgio_new_node(c, root, "Base", "CGNSBase_t", "I4", 1, &dim, iv, &id2);
     }
@@ -176,22 +184,25 @@ int main(int argc, char **argv)
                     file -- "open <id> r keep" shows that (finding open:adf-file-refused-after-hdf5-default) */
                 st = cg_open(p, m == 'w' ? CG_MODE_WRITE : m == 'm' ? CG_MODE_MODIFY : CG_MODE_READ, &fn);
                 if (!st && m == 'w') { int B; char nm[40]; sprintf(nm, "B%d", id); cg_base_write(fn, nm, 3, 3, &B); }
-                printf("open %d %d", st ? 1 : 0, st ? 0 : fn); dump_mll();
+                /* "left": what the call left in the caller's variable (initialised to -7): the number of the file, or, for a
+                   refused open, whatever cg_open stored before it failed */
+                printf("open %d %d left %d", st ? 1 : 0, st ? 0 : fn, fn); dump_mll();
             } else if (sscanf(line, "close %d", &n) == 1) {
                 int st = cg_close(n);
                 printf("close %d", st ? 1 : 0); dump_mll();
             } else if (sscanf(line, "get %d", &n) == 1) {
-                /* a use that is legal in every mode: cg_get_cgio (cgi_get_file), then the name of the base node as the file has it */
-                int st, cg_io = 0, cnt = 0, i; char nm[64] = "-"; double root; char names[10 * 33];
+                /* a use that is legal in every mode: cg_get_cgio (cgi_get_file) -- ITS status is the answer: does the number
+                   resolve? -- then the name of the base node as the file has it ("-" when the cgio calls fail) */
+                int st, st2, cg_io = 0, cnt = 0, i; char nm[64] = "-"; double root; char names[10 * 33];
                 st = cg_get_cgio(n, &cg_io);
-                if (!st) st = cgio_get_root_id(cg_io, &root);
-                if (!st) st = cgio_children_names(cg_io, root, 1, 10, 33, &cnt, names);
-                if (!st) {
-                    st = 1;
+                st2 = st;
+                if (!st2) st2 = cgio_get_root_id(cg_io, &root);
+                if (!st2) st2 = cgio_children_names(cg_io, root, 1, 10, 33, &cnt, names);
+                if (!st2) {
                     for (i = 0; i < cnt; i++)
-                        if (names[i * 33] == 'B' && names[i * 33 + 1] >= '0' && names[i * 33 + 1] <= '9') { strcpy(nm, &names[i * 33]); st = 0; }
+                        if (names[i * 33] == 'B' && names[i * 33 + 1] >= '0' && names[i * 33 + 1] <= '9') strcpy(nm, &names[i * 33]);
                 }
-                printf("get %d %s", st ? 1 : 0, st ? "-" : nm); dump_mll();
+                printf("get %d %s", st ? 1 : 0, nm); dump_mll();
             } else { printf("badline %s\n", line); fflush(stdout); }
         } else {
             if (sscanf(line, "world %4095s %4095s", a, b) == 2) {
